@@ -1542,8 +1542,13 @@ class LuaFormatterWriter(LuaASTEchoWriter):
         spaces = re.sub(br'\n\n+', b'\n\n', spaces)
 
         # Remove excess trailing whitespace at end of file.
+        # (Blanks after the last line do not decide whether the output ends
+        # with a newline: only a line end does.)
         if self._pos == len(self._tokens):
-            spaces = re.sub(br'[ \n]+$', b'\n', spaces)
+            m = re.search(br'[ \n]+\Z', spaces)
+            if m:
+                spaces = (spaces[:m.start()] +
+                          (b'\n' if b'\n' in m.group(0) else b''))
 
         # TODO: same-line spacing patterns:
         # - one space before and after binop
